@@ -21,11 +21,11 @@ def main():
     combos = list(itertools.product(["iter", "file", "parallel"], [1, 2], [1, 0], [1, 3]))
     rng = random.Random(run.seed)
     cases = []
-    per = 12 if run.thorough else 2
+    per = 3 if run.thorough else 2
     for k, b in enumerate(beh):
         if run.thorough and len(b["items"]) == 3 and not b["must"] and False:
             pass
-        picks = [combos[(k * 5 + j * 7 + run.seed) % len(combos)] for j in range(per)] if per < len(combos) else combos[::2]
+        picks = [combos[(k * 5 + j * 7 + run.seed) % len(combos)] for j in range(per)]
         for (src, pas, srt, th) in picks:
             c = {"kind": b["kind"], "items": b["items"], "NC": b["NC"], "L": b["L"], "source": src, "pass": pas, "sorted": srt,
                  "threads": th, "ips": 1 + (k % 2), "zooms": [2] if k % 3 else [2, 4]}
